@@ -96,6 +96,19 @@ impl ValidationReport {
     pub fn process(
         engine: &Engine, config: &Config, initial: bool,
     ) -> Result<(Self, Metrics), RunFailed> {
+        #[cfg(feature = "verif-hooks")]
+        {
+            crate::verif::point("run-start");
+            match crate::verif::next_run_outcome() {
+                crate::verif::RunOutcome::Retry => {
+                    return Err(RunFailed::retry())
+                }
+                crate::verif::RunOutcome::Fatal => {
+                    return Err(RunFailed::fatal())
+                }
+                crate::verif::RunOutcome::Proceed => { }
+            }
+        }
         let report = Self::new(config);
         let mut run = engine.start(&report, initial)?;
         run.process()?;
